@@ -131,6 +131,18 @@ DEFAULTS = {
     "dclause": lambda: sa.DefaultClause("7"),
 }
 DEFAULT_KEYS_PLAIN_EXTRA = ["empty", "fnow", "dclause"]
+# SQL-expression defaults that contain Python literals: they have to be rendered with the values bound in
+# (never with a bind placeholder)
+DEFAULTS.update({
+    "coalesce": lambda: sa.func.coalesce(sa.column("other"), 0),
+    "concat": lambda: sa.func.concat("ab", "cd"),
+    "cast0": lambda: sa.cast(0, sa.Integer),
+    "lit42": lambda: sa.literal(42),
+    "dc_coalesce": lambda: sa.DefaultClause(sa.func.coalesce(sa.column("other"), 7)),
+    "dc_lit": lambda: sa.DefaultClause(sa.literal("x1")),
+})
+DEFAULT_KEYS_EXPR = ["coalesce", "concat", "cast0", "lit42", "dc_coalesce", "dc_lit"]
+DEFAULT_KEYS_PLAIN_EXTRA += DEFAULT_KEYS_EXPR
 DEFAULT_KEYS_PLAIN = ["five", "abc", "now", "expr"]
 DEFAULT_KEYS_IDENTITY = ["id0", "id_a2", "id_3", "id_a"]
 DEFAULT_KEYS_COMPUTED = ["comp"]
@@ -224,9 +236,21 @@ def default_token(dialect, key):
         elif key in DEFAULT_KEYS_COMPUTED:
             tok = {"kind": "computed", "text": "c9 + 1"}
         else:
+            # the dialect's own literal-bound rendering of the default, computed with SQLAlchemy only (not through
+            # alembic's format_server_default): a string is a string literal, an expression is compiled with the
+            # values bound in
             d = _sa_dialect(dialect)
-            comp = d.ddl_compiler(d, None)
-            text = comp.get_column_default_string(sa.Column("x", sa.Integer, server_default=DEFAULTS[key]()))
+            v = DEFAULTS[key]()
+            if isinstance(v, sa.DefaultClause):
+                v = v.arg
+            if isinstance(v, str):
+                text = d.statement_compiler(d, None).render_literal_value(v, sqltypes.String())
+            else:
+                text = str(v.compile(dialect=d, compile_kwargs={"literal_binds": True}))
+            # cross-check with SQLAlchemy's DDL compiler (what CREATE TABLE would render)
+            ddl_text = d.ddl_compiler(d, None).get_column_default_string(
+                sa.Column("x", sa.Integer, server_default=DEFAULTS[key]()))
+            assert text == ddl_text, (dialect, key, text, ddl_text)
             tok = {"kind": "plain", "text": text}
         _DF_CACHE[ck] = tok
     return _DF_CACHE[ck]
